@@ -1,35 +1,84 @@
 import os
 SOLVER = os.environ.get("C16_SOLVER", "cadical")
-SIZES = {"quick": (4, 8), "thorough": (1, 2, 3, 4, 5, 6, 7, 8)}
-N2MAX = {"quick": 4, "thorough": 5}   # two-round histories up to this buffer size
-KF = {"KF_TASK_ERR_DROPPED": None, "KF_TASK_TIMER_UDATA": None}
+KF = {}   # both findings were repaired in /repo (known_findings.json: fixed)
 
-META = {"bounds": "", "outside": "", "assumptions": [], "harness_functions": []}
+if os.environ.get("C16_NO_KF"):   # reproduce the findings: run without the blocking clauses
+    KF = {}
+
+META = {
+    "bounds":
+        "src/threadpool/threadpool_task.c with the tpt_ev_* layer replaced by a recorder (that layer is C06) and the I/O system "
+        "calls replaced by stubs over a ghost stream. STREAM TASKS (task.c): tp_task_rw_handler / tp_task_sr_handler for READ and "
+        "WRITE, started task in ANY valid io_buf state (size 1..8, offset + transfer_size <= size, used <= size, any contents), "
+        "any event_flags in {0, ONESHOT, DISPATCH}, CB_AFTER_EVERY_READ / CLOSE_ON_DESTROY on/off, any timeout, any carried "
+        "total and file offset < 2^32; one event (I/O event with any TP_F_EOF/TP_F_ERROR combination and error code, or the "
+        "timeout timer) with every fragmentation (each pread/recv/pwrite/send returns -1 with any errno, 0, or 1..requested), "
+        "any callback return code; two consecutive events for sizes <= 2 (quick) / <= 4 sr, <= 3 rw (thorough); "
+        "tp_task_start_ex(shedule_first_io = 0) for the same states with any registration results. CONTROL (task.c MODE 2): "
+        "tp_task_enable(0/1), tp_task_stop, stop + tp_task_restart, tp_task_destroy on a started task with any registration "
+        "results. OTHER HANDLERS (task2.c): notify, pkt_rcvr (buffer 4, <= 2 datagrams per event, callback re-opens any window), "
+        "accept (<= 2 connections per event), connect; one event each incl. timeout and EOF/ERROR flags. "
+        "quick: sizes 4 and 8 (sr), 4 (rw), first-I/O 4/8; thorough: sizes 1..8.",
+    "outside":
+        "real elapsed-time semantics of the timeout (the timer event is just delivered or not); kernel fragmentation realism "
+        "(over-approximated); stop/destroy from another thread; ev.data other than UINT64_MAX for I/O events (what the Linux "
+        "tpt_loop passes; kqueue byte counts not covered); callbacks that modify the buffer or the task inside a stream round; "
+        "tp_task_connect_ex_* (retry/time-limit logic), tp_task_bind_accept_*create, tp_task_create_start wrappers; heap "
+        "lifetime of the task object and allocation failure; CONTINUE returned for a ONESHOT task (forbidden by the header); "
+        "more than two consecutive events; datagram buffers other than 4 bytes; the real tpt_ev_* layer composed with the task "
+        "layer in one run (composition is by contract: evrec.h states what C06 decides).",
+    "assumptions": [
+        "tpt_ev_add_args/add_args2/del_args1/enable_args/enable_args1 replaced by harness/C16/evrec.h: records every call, "
+        "returns a solver-chosen errno or 0 restricted by the C06 contract (timer call on a udata without timerfd = ENOENT and "
+        "no change; delete always unregisters; a refused add/enable leaves nothing installed), tracks registered/enabled",
+        "pread/recv/pwrite/send/recvfrom stubs: ios in {-1} u [0, requested], any errno; bytes come from / go to a ghost stream "
+        "stored per round indexed by buffer position (re-indexing of an arbitrary stream, see task.c)",
+        "after the pool flagged EOF (EPOLLHUP/RDHUP) an I/O call answers data, 0 or a hard error, never an EAGAIN-class errno",
+        "skt_accept is a specification stub (accept4 result or errno); skt_connect, skt_bind, skt_listen, skt_opts_apply_ex, "
+        "tp_thread_* are link-only stubs",
+        "events are delivered only to armed registrations (C06 automaton): before an I/O event ONESHOT unregisters / DISPATCH "
+        "disables the I/O udata, the timer (registered DISPATCH) is disabled when it fires",
+        "calloc in tp_task_create returns one static zeroed tp_task_t; free is recorded",
+        "bound: at most NREC = 2 datagrams / connections per event (the stub answers EAGAIN afterwards)",
+        "KF_TASK_ERR_DROPPED, KF_TASK_TIMER_UDATA blocking clauses while the findings are unfixed (see findings/)",
+    ],
+    "harness_functions": ["harness", "task_cb", "notify_cb", "pkt_cb", "accept_cb", "connect_cb", "cb_common", "evc", "evc_all_ok",
+                          "is_filtered", "io_call", "v_pread", "v_recv", "v_pwrite", "v_send", "v_recvfrom", "v_close", "v_skt_accept",
+                          "v_skt_connect", "v_none", "v_calloc_task", "v_free_task", "v_tpt_ev_add_args", "v_tpt_ev_add_args2",
+                          "v_tpt_ev_del_args1", "v_tpt_ev_enable_args", "v_tpt_ev_enable_args1", "skt_bind", "skt_listen",
+                          "skt_opts_apply_ex", "tp_thread_count_max_get", "tp_thread_get", "tp_thread_get_rr", "v_alloc", "v_buf"],
+}
 
 GROUPS = [("mv", None, r"\[cb\]|\[arm\]", "requests, bytes against the ghost stream, cursors, totals, memory safety"),
           ("cb", r"\[cb\]", None, "exactly-one callback for EOF/error/timeout/completion, callback arguments, carried totals"),
           ("arm", r"\[arm\]", None, "timer/I-O mutual disabling before the callback, re-arm iff CONTINUE, start/restart sequences")]
 
+def stream_shapes(tier):
+    """(type 0=rw/1=sr, mode, rounds, size)"""
+    if tier == "quick":
+        return ([(1, 0, 1, 4), (1, 0, 1, 8), (0, 0, 1, 4), (1, 1, 1, 4), (0, 1, 1, 8), (1, 0, 2, 2), (0, 0, 2, 2)])
+    sh = []
+    for size in range(1, 9):
+        sh += [(1, 0, 1, size), (0, 0, 1, size), (1, 1, 1, size), (0, 1, 1, size)]
+    sh += [(1, 0, 2, n) for n in (1, 2, 3, 4)] + [(0, 0, 2, n) for n in (1, 2, 3)]
+    return sh
+
 def jobs(tier):
     out = []
-    for size in SIZES.get(tier, (2,)):
-        for typ in (0, 1):
-            for ev, evn in ((0, "read"), (1, "write")):
-                for mode, nst in ((0, 1), (0, 2), (1, 1)):
-                    if nst == 2 and size > N2MAX[tier]:
-                        continue
-                    for g, inc, exc, gd in GROUPS:
-                        out.append({
-                            "name": "task-%s-%s-m%d-n%d-s%d-%s" % ("sr" if typ else "rw", evn, mode, nst, size, g), "src": "task.c",
-                            "defs": dict(KF, SIZE=size, TYPE=typ, EVENT=ev, MODE=mode, NSTEPS=nst),
-                            "unwind": 2 * size + 6, "prop_include": inc, "prop_exclude": exc,
-                            "unwindset": ["tp_task_handler.3:%d" % (size + 2), "tp_task_handler.6:%d" % (size + 2), "io_call.0:%d" % (size + 1)],
-                            "solver": SOLVER, "timeout": 300,
-                            "shape": "buffer size %d, %s handler, %s event, %s, %d round(s)" % (
-                                size, "send/recv" if typ else "pread/pwrite", evn,
-                                "handler called as by tpt_loop" if mode == 0 else "tp_task_start_ex(shedule_first_io=0)", nst),
-                            "desc": gd,
-                        })
+    for typ, mode, nst, size in stream_shapes(tier):
+        for ev, evn in ((0, "read"), (1, "write")):
+            for g, inc, exc, gd in GROUPS:
+                out.append({
+                    "name": "task-%s-%s-m%d-n%d-s%d-%s" % ("sr" if typ else "rw", evn, mode, nst, size, g), "src": "task.c",
+                    "defs": dict(KF, SIZE=size, TYPE=typ, EVENT=ev, MODE=mode, NSTEPS=nst),
+                    "unwind": max(2 * size + 6, 14), "prop_include": inc, "prop_exclude": exc,
+                    "unwindset": ["tp_task_handler.3:%d" % (size + 2), "tp_task_handler.6:%d" % (size + 2), "io_call.0:%d" % (size + 1)],
+                    "solver": SOLVER, "timeout": 300 if tier == "quick" else 1500,
+                    "shape": "buffer size %d, %s handler, %s event, %s, %d round(s)" % (
+                        size, "send/recv" if typ else "pread/pwrite", evn,
+                        "handler called as by tpt_loop" if mode == 0 else "tp_task_start_ex(shedule_first_io=0)", nst),
+                    "desc": gd,
+                })
     for hnd, hn in ((0, "notify"), (1, "pkt_rcvr"), (2, "accept"), (3, "connect")):
         out.append({"name": "task2-%s" % hn, "src": "task2.c", "defs": dict(KF, HND=hnd, SIZE=4, NREC=2), "unwind": 12,
                     "unwindset": ["tp_task_pkt_rcvr_handler.4:4", "tp_task_accept_handler.1:4"], "solver": SOLVER, "timeout": 300,
